@@ -2134,10 +2134,217 @@ func (d *Document) parseBodySubElement(decoder *xml.Decoder, startElement xml.St
 	case "sectPr":
 		// 解析节属性
 		return d.parseSectionProperties(decoder, startElement)
+	case "sdt":
+		// 块级内容控件（目录等）：保留其中的段落和表格，而不是连同正文文本一起跳过
+		return d.parseSDT(decoder)
+	case "bookmarkStart":
+		// 正文级书签（标题书签、目录锚点）
+		bookmark := &BookmarkStart{ID: getAttributeValue(startElement.Attr, "id"), Name: getAttributeValue(startElement.Attr, "name")}
+		return bookmark, d.skipElement(decoder, startElement.Name.Local)
+	case "bookmarkEnd":
+		bookmark := &BookmarkEnd{ID: getAttributeValue(startElement.Attr, "id")}
+		return bookmark, d.skipElement(decoder, startElement.Name.Local)
 	default:
 		// 跳过未知元素
 		Debugf("跳过未知元素: %s", startElement.Name.Local)
 		return nil, d.skipElement(decoder, startElement.Name.Local)
+	}
+}
+
+// parseSDT 解析块级结构化文档标签（w:sdt）：读取本库能表示的属性，并按正文元素解析 w:sdtContent 中的内容
+func (d *Document) parseSDT(decoder *xml.Decoder) (*SDT, error) {
+	sdt := &SDT{
+		Properties: &SDTProperties{},
+		Content:    &SDTContent{Elements: make([]interface{}, 0)},
+	}
+
+	for {
+		token, err := decoder.Token()
+		if err != nil {
+			return nil, WrapError("parse_sdt", err)
+		}
+
+		switch t := token.(type) {
+		case xml.StartElement:
+			switch t.Name.Local {
+			case "sdtPr":
+				if err := d.parseSDTProperties(decoder, sdt.Properties); err != nil {
+					return nil, err
+				}
+			case "sdtEndPr":
+				endPr, err := d.parseSDTEndProperties(decoder)
+				if err != nil {
+					return nil, err
+				}
+				sdt.EndPr = endPr
+			case "sdtContent":
+				if err := d.parseSDTContent(decoder, sdt.Content); err != nil {
+					return nil, err
+				}
+			default:
+				if err := d.skipElement(decoder, t.Name.Local); err != nil {
+					return nil, err
+				}
+			}
+		case xml.EndElement:
+			if t.Name.Local == "sdt" {
+				return sdt, nil
+			}
+		}
+	}
+}
+
+// parseSDTContent 按正文元素解析 w:sdtContent 的子元素（段落、表格、嵌套的内容控件）
+func (d *Document) parseSDTContent(decoder *xml.Decoder, content *SDTContent) error {
+	for {
+		token, err := decoder.Token()
+		if err != nil {
+			return WrapError("parse_sdt_content", err)
+		}
+
+		switch t := token.(type) {
+		case xml.StartElement:
+			switch t.Name.Local {
+			case "p":
+				paragraph, err := d.parseParagraph(decoder, t)
+				if err != nil {
+					return err
+				}
+				if paragraph != nil {
+					content.Elements = append(content.Elements, paragraph)
+				}
+			case "tbl":
+				table, err := d.parseTable(decoder, t)
+				if err != nil {
+					return err
+				}
+				if table != nil {
+					content.Elements = append(content.Elements, table)
+				}
+			case "sdt":
+				nested, err := d.parseSDT(decoder)
+				if err != nil {
+					return err
+				}
+				if nested != nil {
+					content.Elements = append(content.Elements, nested)
+				}
+			case "r":
+				// 本库生成的目录在 w:sdtContent 中直接放置运行
+				run, err := d.parseRun(decoder, t)
+				if err != nil {
+					return err
+				}
+				if run != nil {
+					// 与 AddTOCEntry 写入时一致：以值的形式保存运行
+					content.Elements = append(content.Elements, *run)
+				}
+			case "bookmarkStart":
+				content.Elements = append(content.Elements, &BookmarkStart{ID: getAttributeValue(t.Attr, "id"), Name: getAttributeValue(t.Attr, "name")})
+				if err := d.skipElement(decoder, t.Name.Local); err != nil {
+					return err
+				}
+			case "bookmarkEnd":
+				content.Elements = append(content.Elements, &BookmarkEnd{ID: getAttributeValue(t.Attr, "id")})
+				if err := d.skipElement(decoder, t.Name.Local); err != nil {
+					return err
+				}
+			default:
+				if err := d.skipElement(decoder, t.Name.Local); err != nil {
+					return err
+				}
+			}
+		case xml.EndElement:
+			if t.Name.Local == "sdtContent" {
+				return nil
+			}
+		}
+	}
+}
+
+// parseSDTProperties 解析 w:sdtPr 中本库能表示的属性，其余属性跳过
+func (d *Document) parseSDTProperties(decoder *xml.Decoder, props *SDTProperties) error {
+	for {
+		token, err := decoder.Token()
+		if err != nil {
+			return WrapError("parse_sdt_properties", err)
+		}
+
+		switch t := token.(type) {
+		case xml.StartElement:
+			switch t.Name.Local {
+			case "rPr":
+				run := &Run{}
+				if err := d.parseRunProperties(decoder, run); err != nil {
+					return err
+				}
+				props.RunPr = run.Properties
+				continue
+			case "id":
+				props.ID = &SDTID{Val: getAttributeValue(t.Attr, "val")}
+			case "color":
+				props.Color = &SDTColor{Val: getAttributeValue(t.Attr, "val")}
+			case "docPartObj":
+				if props.DocPartObj == nil {
+					props.DocPartObj = &DocPartObj{}
+				}
+				continue
+			case "docPartGallery":
+				if props.DocPartObj != nil {
+					props.DocPartObj.DocPartGallery = &DocPartGallery{Val: getAttributeValue(t.Attr, "val")}
+				}
+			case "docPartUnique":
+				if props.DocPartObj != nil {
+					props.DocPartObj.DocPartUnique = &DocPartUnique{}
+				}
+			case "placeholder":
+				if props.Placeholder == nil {
+					props.Placeholder = &SDTPlaceholder{}
+				}
+				continue
+			case "docPart":
+				if props.Placeholder != nil {
+					props.Placeholder.DocPart = &DocPart{Val: getAttributeValue(t.Attr, "val")}
+				}
+			}
+			if err := d.skipElement(decoder, t.Name.Local); err != nil {
+				return err
+			}
+		case xml.EndElement:
+			if t.Name.Local == "sdtPr" {
+				return nil
+			}
+		}
+	}
+}
+
+// parseSDTEndProperties 解析 w:sdtEndPr
+func (d *Document) parseSDTEndProperties(decoder *xml.Decoder) (*SDTEndPr, error) {
+	endPr := &SDTEndPr{}
+	for {
+		token, err := decoder.Token()
+		if err != nil {
+			return nil, WrapError("parse_sdt_end_properties", err)
+		}
+
+		switch t := token.(type) {
+		case xml.StartElement:
+			if t.Name.Local == "rPr" {
+				run := &Run{}
+				if err := d.parseRunProperties(decoder, run); err != nil {
+					return nil, err
+				}
+				endPr.RunPr = run.Properties
+				continue
+			}
+			if err := d.skipElement(decoder, t.Name.Local); err != nil {
+				return nil, err
+			}
+		case xml.EndElement:
+			if t.Name.Local == "sdtEndPr" {
+				return endPr, nil
+			}
+		}
 	}
 }
 
